@@ -169,6 +169,9 @@ pub fn op_scenario(req: &Value) -> Value {
         .unwrap_or_default();
     let n = threads.len();
     bindgen::verif::salt::set(ju64(req, "salt").unwrap_or(0));
+    if let Some(seed) = ju64(req, "hash_seed") {
+        reseed_getrandom(seed);
+    }
     let sched_cfg = req.get("sched").filter(|s| !s.is_null());
     let sched = sched_cfg.map(|cfg| {
         let seed = ju64(cfg, "seed").unwrap_or(1);
@@ -214,6 +217,8 @@ pub fn op_scenario(req: &Value) -> Value {
     if let Some(s) = &sched {
         let s2 = s.clone();
         bindgen::verif::sched::install(Arc::new(move |label| s2.yield_point(label)));
+        *SYS_SCHED.lock().unwrap() = Some(s.clone());
+        set_sys_hook(true);
     }
     let results: Arc<Mutex<Vec<Vec<Value>>>> = Arc::new(Mutex::new(vec![Vec::new(); n]));
     let mut handles = Vec::new();
@@ -248,6 +253,8 @@ pub fn op_scenario(req: &Value) -> Value {
         }
     }
     bindgen::verif::sched::uninstall();
+    set_sys_hook(false);
+    *SYS_SCHED.lock().unwrap() = None;
     bindgen::verif::salt::set(0);
     let results = results.lock().unwrap().clone();
     let mut out = json!({"results": results, "thread_panics": thread_panics});
@@ -264,4 +271,64 @@ pub fn op_scenario(req: &Value) -> Value {
         });
     }
     out
+}
+
+
+/// Re-seed the getrandom stub of the LD_PRELOAD shim, if it is loaded.
+pub fn reseed_getrandom(seed: u64) -> bool {
+    unsafe {
+        let sym = libc::dlsym(libc::RTLD_DEFAULT, c"bvsim_getrandom_reseed".as_ptr());
+        if sym.is_null() {
+            return false;
+        }
+        let f: extern "C" fn(u64) = std::mem::transmute(sym);
+        f(seed);
+        true
+    }
+}
+
+
+static SYS_SCHED: Mutex<Option<Arc<Sched>>> = Mutex::new(None);
+
+/// Called by the LD_PRELOAD shim before file-creating/renaming/removing calls
+/// made by the driver binary: a yield point at the file-system seam, so that
+/// code without `verif_point!`s is still interleaved where generations can
+/// collide on shared files.
+extern "C" fn sys_hook(op: *const libc::c_char, path: *const libc::c_char) {
+    if ACTOR.with(|a| a.get()).is_none() {
+        return;
+    }
+    let (op, path) = unsafe {
+        (
+            std::ffi::CStr::from_ptr(op).to_bytes(),
+            std::ffi::CStr::from_ptr(path).to_bytes(),
+        )
+    };
+    // only files a generation may share with its neighbours: the scenario's
+    // scratch directories and anything relative to the working directory
+    let shared = !path.starts_with(b"/") || path.windows(9).any(|w| w == b"bvsim-c11");
+    if !shared {
+        return;
+    }
+    let label: &'static str = match op {
+        b"rename" => "sys.rename",
+        b"unlink" => "sys.unlink",
+        _ => "sys.open-write",
+    };
+    let sched = SYS_SCHED.lock().unwrap().clone();
+    if let Some(s) = sched {
+        s.yield_point(label);
+    }
+}
+
+fn set_sys_hook(on: bool) {
+    unsafe {
+        let sym = libc::dlsym(libc::RTLD_DEFAULT, c"bvsim_set_sys_hook".as_ptr());
+        if sym.is_null() {
+            return;
+        }
+        type Hook = extern "C" fn(*const libc::c_char, *const libc::c_char);
+        let f: extern "C" fn(Option<Hook>) = std::mem::transmute(sym);
+        f(if on { Some(sys_hook) } else { None });
+    }
 }
